@@ -4,58 +4,6 @@ import (
 	"github.com/corazawaf/coraza/v3/internal/vp"
 )
 
-// A request is a list of (collection, name, value) triples the harness itself adds.
-type vpPair struct {
-	where int // 0 query string argument, 1 body argument, 2 header, 3 cookie
-	name  string
-	value string
-}
-
-func vpLowerASCII(s string) string {
-	b := []byte(s)
-	for i := range b {
-		if b[i] >= 'A' && b[i] <= 'Z' {
-			b[i] += 32
-		}
-	}
-	return string(b)
-}
-
-// target descriptions: text, and the reference selection over the harness's own pair list
-type vpC01Target struct {
-	text string
-	// sel returns (selected, isName) for a pair; count targets are handled separately
-	sel   func(p vpPair) bool
-	names bool
-	count bool
-}
-
-func vpArgs(p vpPair) bool { return p.where == 0 || p.where == 1 }
-
-var vpC01Targets = []vpC01Target{
-	{"ARGS", vpArgs, false, false},
-	{"ARGS:k", func(p vpPair) bool { return vpArgs(p) && vpLowerASCII(p.name) == "k" }, false, false},
-	{"ARGS:K", func(p vpPair) bool { return vpArgs(p) && vpLowerASCII(p.name) == "k" }, false, false},
-	{"ARGS_GET", func(p vpPair) bool { return p.where == 0 }, false, false},
-	{"ARGS_POST", func(p vpPair) bool { return p.where == 1 }, false, false},
-	{"ARGS_NAMES", vpArgs, true, false},
-	{"ARGS_NAMES:k", func(p vpPair) bool { return vpArgs(p) && vpLowerASCII(p.name) == "k" }, true, false},
-	{"ARGS_NAMES:K", func(p vpPair) bool { return vpArgs(p) && vpLowerASCII(p.name) == "k" }, true, false},
-	{"&ARGS", vpArgs, false, true},
-	{"&ARGS:k", func(p vpPair) bool { return vpArgs(p) && vpLowerASCII(p.name) == "k" }, false, true},
-	{"ARGS|!ARGS:k", func(p vpPair) bool { return vpArgs(p) && vpLowerASCII(p.name) != "k" }, false, false},
-	{"ARGS|!ARGS:K", func(p vpPair) bool { return vpArgs(p) && vpLowerASCII(p.name) != "k" }, false, false},
-	{"ARGS_NAMES|!ARGS_NAMES:K", func(p vpPair) bool { return vpArgs(p) && vpLowerASCII(p.name) != "k" }, true, false},
-	{"&ARGS|!ARGS:K", func(p vpPair) bool { return vpArgs(p) && vpLowerASCII(p.name) != "k" }, false, true},
-	{"ARGS:/^k/", func(p vpPair) bool { return vpArgs(p) && len(p.name) > 0 && vpLowerASCII(p.name)[0] == 'k' }, false, false},
-	{"ARGS|!ARGS:/^k/", func(p vpPair) bool {
-		return vpArgs(p) && !(len(p.name) > 0 && vpLowerASCII(p.name)[0] == 'k')
-	}, false, false},
-	{"REQUEST_HEADERS:k", func(p vpPair) bool { return p.where == 2 && vpLowerASCII(p.name) == "k" }, false, false},
-	{"REQUEST_COOKIES", func(p vpPair) bool { return p.where == 3 }, false, false},
-	{"ARGS_GET|REQUEST_COOKIES:k", func(p vpPair) bool { return p.where == 0 || p.where == 3 && vpLowerASCII(p.name) == "k" }, false, false},
-}
-
 // VpC01Match: one rule (target x negation x transformation x multiMatch off) over a request of
 // 1..P name/value pairs placed in the query string, the body arguments, the headers or the
 // cookies, with names drawn from {k, K, j, kk} and symbolic one-byte values: the rule fires iff
